@@ -862,6 +862,21 @@ func init() {
 				judge(c, cs)
 			}
 		}
+		c.Phase("inscription-payload-lengths") // every direct-push length and its neighbours as the length of the content push in front of OP_ENDIF
+		n = 0
+		for size := 1; size <= 80; size++ {
+			for _, t := range []uint8{0x41, 0x01} {
+				n++
+				if !c.Case(n) {
+					continue
+				}
+				r := c.Rand(n)
+				c04BigPayload = size
+				cs := c04MakeCase(r, 1, 1, 0, t, "FillInput", true)
+				c04BigPayload = 0
+				judge(c, cs)
+			}
+		}
 		c.Phase("huge-inscriptions") // a single content push above 750,000 bytes (the pre-Genesis-derived size constants that sit next to the unlimited post-Genesis ones)
 		n = 0
 		for _, size := range []int{750001, 1000000} {
